@@ -20,7 +20,7 @@ use std::sync::{Arc, Mutex};
 pub fn def() -> PropDef {
     PropDef {
         id: "C16",
-        rule: "2 threads x scripts of <=3 steps and 3 threads x scripts of <=2 steps over {fail with one of six different messages through four table entries (two entries fail in two different ways), succeed, read description through the thread's last CErr*, look again at the description text retrieved earlier}; every interleaving of the steps (step-level points, unbounded) and, with the library's yield points around the error store enabled, every interleaving with at most 2 preemptions; each execution runs on real OS threads under a baton scheduler and is compared with the per-thread expectation; distinct classes = (threads, script shapes, whether a foreign failure lies between a failure and its read)",
+        rule: "2 threads x scripts of <=3 steps and 3 threads x scripts of <=2 steps over {fail with one of nine messages through seven table entries (raw_name_from_str and rename fail in two ways each; set_raw_name, delete and set_name fail inside an iteration callback), succeed, read description through the thread's last CErr*, look again at the description text retrieved earlier}; every interleaving of the steps (step-level points, unbounded) and, with the library's yield points around the error store enabled, every interleaving with at most 2 preemptions; each execution runs on real OS threads under a baton scheduler and is compared with the per-thread expectation; distinct classes = (threads, script shapes, whether a foreign failure lies between a failure and its read)",
         run,
         replay,
         bounds: |t| json!({"threads": [2, 3], "steps_2_threads": t.pick(3, 4), "steps_3_threads": 2, "preemption_bound_with_library_points": t.pick(2, 3), "max_executions_per_tuple": 20000}),
@@ -107,6 +107,46 @@ fn do_step(t: &FnTable, c: &mut ThreadCtx, s: Step) -> Result<String, String> {
                         let name: &[u8] = if k == 2 { b"a..b" } else { &long };
                         (t.raw_name_from_str)(&mut raw, &mut raw_len, &mut err, name.as_ptr() as *const _, name.len())
                     }
+                    6 | 7 | 8 => {
+                        // failures raised inside an iteration callback: set_raw_name with a bad name, a second
+                        // delete through the same cursor, set_name with a bad text
+                        struct Cb<'a> {
+                            t: &'a FnTable,
+                            k: u8,
+                            err: *const CErr,
+                            rc: libc::c_int,
+                        }
+                        unsafe extern "C" fn cb(ctx: *mut libc::c_void, it: *const SectionIterator) -> bool {
+                            unsafe {
+                                let c = &mut *(ctx as *mut Cb);
+                                let it = &mut *(it as *mut SectionIterator);
+                                match c.k {
+                                    6 => {
+                                        let bad = [64u8, b'x', 0];
+                                        c.rc = (c.t.set_raw_name)(it, &mut c.err, bad.as_ptr(), bad.len());
+                                    }
+                                    7 => {
+                                        let mut e1: *const CErr = std::ptr::null();
+                                        let _ = (c.t.delete)(it, &mut e1);
+                                        c.rc = (c.t.delete)(it, &mut c.err);
+                                    }
+                                    _ => {
+                                        let bad = b"\xe9t\xe9.example";
+                                        c.rc = (c.t.set_name)(it, &mut c.err, bad.as_ptr() as *const _, bad.len(), std::ptr::null(), 0);
+                                    }
+                                }
+                                true
+                            }
+                        }
+                        // make sure there is an answer to iterate over
+                        let mut e0: *const CErr = std::ptr::null();
+                        let txt = CString::new("it. 1 IN A 9.9.9.8").unwrap();
+                        let _ = (t.add_to_answer)(&mut c.pp, &mut e0, txt.as_ptr());
+                        let mut cbs = Cb { t, k, err: std::ptr::null(), rc: 0 };
+                        (t.iter_answer)(&mut c.pp, cb, &mut cbs as *mut Cb as *mut libc::c_void);
+                        err = cbs.err;
+                        cbs.rc
+                    }
                     5 => {
                         let tgt = [1u8; 300];
                         let src = [1u8, b'z', 0];
@@ -160,7 +200,7 @@ fn do_step(t: &FnTable, c: &mut ThreadCtx, s: Step) -> Result<String, String> {
 fn expected_messages() -> Vec<String> {
     let t = fn_table();
     let mut c = ThreadCtx { pp: crate::subj::parse(&base_packet()).unwrap(), last_err: std::ptr::null(), last_desc: std::ptr::null(), last_msg: None };
-    (0..6u8)
+    (0..9u8)
         .map(|k| {
             do_step(&t, &mut c, Step::Fail(k)).unwrap();
             c.last_msg.clone().unwrap()
@@ -251,7 +291,7 @@ fn judge(scripts: &[Vec<Step>], obs: &[Obs], exp: &[String]) -> Result<bool, Str
 }
 
 fn scripts_upto(n: usize) -> Vec<Vec<Step>> {
-    let alpha = [Step::Fail(0), Step::Fail(1), Step::Fail(2), Step::Fail(3), Step::Fail(4), Step::Fail(5), Step::Succeed, Step::Read, Step::Peek];
+    let alpha = [Step::Fail(0), Step::Fail(1), Step::Fail(2), Step::Fail(3), Step::Fail(4), Step::Fail(5), Step::Fail(6), Step::Fail(7), Step::Fail(8), Step::Succeed, Step::Read, Step::Peek];
     let mut out: Vec<Vec<Step>> = vec![];
     let mut cur: Vec<Vec<Step>> = vec![vec![]];
     for _ in 0..n {
@@ -352,8 +392,8 @@ fn explore_tuple(ctx: &mut Ctx, rep: &mut Report, scripts: &[Vec<Step>], libpoin
 
 fn run(ctx: &mut Ctx, rep: &mut Report) {
     let exp = expected_messages();
-    if exp.iter().collect::<std::collections::BTreeSet<_>>().len() != 6 {
-        rep.vacuity.push(format!("the six failing calls do not produce six distinct messages: {:?}", exp));
+    if exp.iter().collect::<std::collections::BTreeSet<_>>().len() < 8 {
+        rep.vacuity.push(format!("the nine failing calls produce fewer than eight distinct messages: {:?}", exp));
     }
     let n2 = ctx.tier.pick(2, 3);
     let s2 = scripts_upto(n2);
@@ -369,7 +409,7 @@ fn run(ctx: &mut Ctx, rep: &mut Report) {
         }
     }
     // 2 threads with the library's points, preemption bound
-    let s_lib: Vec<Vec<Step>> = scripts_upto(2).into_iter().filter(|s| !s.iter().any(|x| matches!(x, Step::Fail(4) | Step::Fail(5)))).collect();
+    let s_lib: Vec<Vec<Step>> = scripts_upto(2).into_iter().filter(|s| !s.iter().any(|x| matches!(x, Step::Fail(k) if *k >= 4))).collect();
     for a in &s_lib {
         for b in &s_lib {
             gi += 1;
@@ -380,7 +420,7 @@ fn run(ctx: &mut Ctx, rep: &mut Report) {
         }
     }
     // 3 threads: a failure/read thread against two failing threads
-    let s3: Vec<Vec<Step>> = scripts_upto(2).into_iter().filter(|s| s.len() == 2 && !s.iter().any(|x| matches!(x, Step::Fail(4) | Step::Fail(5)))).collect();
+    let s3: Vec<Vec<Step>> = scripts_upto(2).into_iter().filter(|s| s.len() == 2 && !s.iter().any(|x| matches!(x, Step::Fail(k) if *k >= 4))).collect();
     let readers: Vec<Vec<Step>> = s3.iter().filter(|s| s[1] == Step::Read || s[1] == Step::Peek).cloned().collect();
     let failers: Vec<Vec<Step>> = vec![vec![Step::Fail(1)], vec![Step::Fail(2), Step::Fail(3)], vec![Step::Fail(0), Step::Read], vec![Step::Fail(4), Step::Fail(5)]];
     for a in &readers {
